@@ -83,6 +83,9 @@ class AFS:
         self.mtime = {}
         self.ino = {}
         self.links = {}          # abs path of a symbolic link -> target string (links to regular files only)
+        self.dead = False        # set by a simulated process death: nothing the (dead) process does afterwards has any effect
+        self._handles = []       # write handles with data whose buffering is not decided yet
+        self._settling = False
         self.mkdirs(cwd)
         self.mkdirs(home)
 
@@ -254,6 +257,19 @@ class AFS:
 
     def _op(self, *entry):
         """Record a mutating operation; fault point."""
+        if self.dead:
+            # exception handlers and finalisers of the code under test run in the model while the stack unwinds, but
+            # the process they belong to no longer exists
+            raise Crash("the process is dead (%r not performed)" % (entry,))
+        if self._handles and not self._settling:
+            # something else happens while written data of unknown length may or may not still sit in a buffer:
+            # now it matters, decide (fork)
+            self._settling = True
+            try:
+                for h in list(self._handles):
+                    h.settle()
+            finally:
+                self._settling = False
         for a in entry[1:]:
             if isinstance(a, str) and a.startswith("/"):
                 exists = a in self.files or a in self.dirs
@@ -265,6 +281,7 @@ class AFS:
             f.fired = (k, entry)
             if f.kind == "crash":
                 self.log.append(("CRASH-before",) + entry)
+                self.dead = True
                 raise Crash("crash before op %d %r" % (k, entry))
             if f.kind == "eperm":
                 self.log.append(("EPERM",) + entry)
@@ -279,6 +296,7 @@ class AFS:
                     self.log.append(("ENOSPC",) + entry)
                     raise OSError(errno.ENOSPC, "No space left on device", entry[1])
                 self.log.append(("CRASH-before",) + entry)
+                self.dead = True
                 raise Crash("crash before op %d %r" % (k, entry))
         self.log.append(entry)
         return None
@@ -424,6 +442,7 @@ class AFS:
                 self.log.append(("ENOSPC-partial", d))
                 raise OSError(errno.ENOSPC, "No space left on device", d)
             self.log.append(("CRASH-partial", d))
+            self.dead = True
             raise Crash("crash during copy to %s" % d)
         self.files[d].content = data
         return d
@@ -455,6 +474,9 @@ class AFS:
         c.reads = []
         c._perm = dict(self._perm)
         c.fault = None
+        c.dead = False
+        c._handles = []
+        c._settling = False
         c.nops = 0
         c.mtime = dict(self.mtime)
         c.ino = dict(self.ino)
@@ -675,12 +697,32 @@ class AFile:
         raise Unsupported("file.%s not modelled" % name)
 
 
+BUFFER_SIZE = 4096      # what io.open gives a regular file (st_blksize); writes at least this large bypass the buffer
+
+
 class AWFile:
+    """A file object open for writing.  It refers to the file (inode), not to the name it was opened under: a rename
+    of the name while the handle is open takes the handle along.  Unless opened with buffering=0, written data sits in
+    the process's own buffer until flush / close / seek / truncate - or goes straight to the file when it is large;
+    with a length the model does not know both happen (fork)."""
+
     def __init__(self, fs, path, mode, unbuffered=False):
         self.fs, self.path, self.mode, self.closed = fs, path, mode, False
         self.name = path
+        self.node = fs.files.get(path)
         self.unbuffered = unbuffered
+        self.pending = []
         self.pos = 0 if mode in ("r+",) else None      # overwrite-in-place position (None = append semantics)
+
+    def _visible(self):
+        """Is the file still reachable under some name (otherwise the bytes go nowhere visible)?"""
+        return any(n is self.node for n in self.fs.files.values())
+
+    def _where(self):
+        for p, n in self.fs.files.items():
+            if n is self.node:
+                return p
+        return self.path
 
     def write(self, data):
         if self.closed:
@@ -689,16 +731,40 @@ class AWFile:
             data = ABuf.of([("T", ("text", data), 0, None)])
         if not isinstance(data, ABuf):
             data = ABuf(data)
-        fault = self.fs._op("write", self.path)
-        node = self.fs.files.get(self.path)
-        if node is None:        # unlinked while open: bytes go nowhere visible
+        if self.unbuffered:
+            return self._emit(data)
+        try:
+            n = data.size()
+        except Unsupported:
+            n = None
+        if isinstance(n, int) and n >= BUFFER_SIZE:
+            self.flush()
+            self._emit(data)
+            return n
+        self.pending.append(data)
+        if not isinstance(n, int) and self not in self.fs._handles:
+            self.fs._handles.append(self)        # length unknown: buffered or written through - decided when it matters
+        return n if n is not None else 1
+
+    def settle(self):
+        """Another filesystem operation is about to happen while data of unknown length is pending."""
+        if self in self.fs._handles:
+            self.fs._handles.remove(self)
+        if self.pending and eng().choice("buffered:%s:%d" % (self.path, self.fs.nops), 2) == 0:
+            self.flush()
+
+    def _emit(self, data):
+        path = self._where()
+        fault = self.fs._op("write", path)
+        node = self.node
+        if node is None or not self._visible():        # unlinked while open: bytes go nowhere visible
             return 0
         if fault == "shortret":
             if self.unbuffered:
                 # a raw (unbuffered) write may store fewer bytes than given and say so in its return value
                 pre = _strict_prefix(data)
                 node.content.extend(pre)
-                self.fs.log.append(("SHORT-RETURN", self.path))
+                self.fs.log.append(("SHORT-RETURN", path))
                 try:
                     return pre.size()
                 except Unsupported:
@@ -707,12 +773,13 @@ class AWFile:
         if fault in ("enospc", "short"):
             node.content.extend(_strict_prefix(data))
             if fault == "enospc":
-                self.fs.log.append(("ENOSPC-partial", self.path))
-                raise OSError(errno.ENOSPC, "No space left on device", self.path)
-            self.fs.log.append(("CRASH-partial", self.path))
-            raise Crash("crash during write to %s" % self.path)
+                self.fs.log.append(("ENOSPC-partial", path))
+                raise OSError(errno.ENOSPC, "No space left on device", path)
+            self.fs.log.append(("CRASH-partial", path))
+            self.fs.dead = True
+            raise Crash("crash during write to %s" % path)
         if self.pos is not None:
-            # r+ : overwrite from the current position, whatever lies beyond the written bytes stays
+            # r+ / no O_TRUNC: overwrite from the current position, whatever lies beyond the written bytes stays
             n = data.size()
             head = node.content[:self.pos]
             tail = node.content[self.pos + n:]
@@ -725,9 +792,22 @@ class AWFile:
         except Unsupported:
             return 1
 
+    def flush(self):
+        if self.closed:
+            raise ValueError("I/O operation on closed file.")
+        if self in self.fs._handles:
+            self.fs._handles.remove(self)
+        if self.pending:
+            data = ABuf.of([])
+            for d in self.pending:
+                data.extend(d)
+            self.pending = []
+            self._emit(data)
+
     def truncate(self, size=None):
-        node = self.fs.files.get(self.path)
-        self.fs._op("truncate", self.path)
+        self.flush()
+        node = self.node
+        self.fs._op("truncate", self._where())
         if node is not None:
             at = self.pos if size is None else size
             if at is None:
@@ -737,18 +817,16 @@ class AWFile:
     def seek(self, p, whence=0):
         if self.pos is None:
             raise Unsupported("seek on an append-mode file")
+        self.flush()
         if whence == 2:
-            p = self.fs.files[self.path].content.size() + p
+            p = self.node.content.size() + p
         elif whence == 1:
             p = self.pos + p
         self.pos = p
         return p
 
-    def flush(self):
-        pass
-
     def fileno(self):
-        return 3
+        return _Fd(self)
 
     def tell(self):
         if self.pos is None:
@@ -756,7 +834,12 @@ class AWFile:
         return self.pos
 
     def close(self):
-        self.closed = True
+        if self.closed:
+            return
+        try:
+            self.flush()
+        finally:
+            self.closed = True
 
     def __enter__(self):
         return self
@@ -766,6 +849,16 @@ class AWFile:
 
     def __getattr__(self, name):
         raise Unsupported("file.%s not modelled" % name)
+
+
+class _Fd:
+    """What fileno() / os.open return: good for os.fsync, os.fdopen, os.close, os.write."""
+
+    def __init__(self, f):
+        self.f = f
+
+    def __index__(self):
+        return 3
 
 
 def _strict_prefix(data):
@@ -886,7 +979,45 @@ class OsModel:
         self._fs.cwd = r
 
     def fsync(self, fd):
-        return None
+        return None          # pushes the *operating system's* buffers to the disk; the process's own buffer is not its business
+
+    O_RDONLY, O_WRONLY, O_RDWR, O_APPEND, O_CREAT, O_EXCL, O_TRUNC, O_CLOEXEC = 0, 1, 2, 0o2000, 0o100, 0o200, 0o1000, 0o2000000
+
+    def open(self, p, flags, mode=0o777, **k):
+        fs = self._fs
+        acc = flags & 3
+        if acc == 0:
+            raise Unsupported("os.open for reading")
+        r = fs.resolve(p)
+        fs._parent_ok(r, p)
+        if r in fs.dirs:
+            raise IsADirectoryError(errno.EISDIR, "Is a directory", _s(p))
+        if r not in fs.files and not flags & self.O_CREAT:
+            raise FileNotFoundError(errno.ENOENT, "No such file or directory", _s(p))
+        if r in fs.files and flags & self.O_EXCL and flags & self.O_CREAT:
+            raise FileExistsError(errno.EEXIST, "File exists", _s(p))
+        fs._op("open-" + ("w" if flags & self.O_TRUNC else "r+"), r)
+        if r not in fs.files:
+            fs.files[r] = Node(ABuf.of([]))
+        elif flags & self.O_TRUNC:
+            fs.files[r].content = ABuf.of([])
+        f = AWFile(fs, r, "r+" if not flags & self.O_APPEND else "a", unbuffered=True)
+        return _Fd(f)
+
+    def fdopen(self, fd, mode="r", buffering=-1, **k):
+        if not isinstance(fd, _Fd) or "r" in mode and "+" not in mode:
+            raise Unsupported("os.fdopen(%r, %r)" % (fd, mode))
+        fd.f.unbuffered = buffering == 0
+        return fd.f
+
+    def close(self, fd):
+        if isinstance(fd, _Fd):
+            fd.f.close()
+
+    def write(self, fd, data):
+        if not isinstance(fd, _Fd):
+            raise Unsupported("os.write(%r)" % (fd,))
+        return fd.f._emit(data if isinstance(data, ABuf) else ABuf(data))
 
     def getpid(self):
         return 4242
@@ -929,6 +1060,9 @@ class OsModel:
         return It(out)
 
     def __getattr__(self, name):
+        import os as _real_os
+        if not hasattr(_real_os, name):
+            raise AttributeError(name)          # not there on this platform either (e.g. O_BINARY): getattr defaults work
         raise Unsupported("os.%s not modelled" % name)
 
 
